@@ -1,11 +1,13 @@
 /-
-C01 property theorems, front-end layer, memory operands, table layer: `front_cls_correct_rvm_mem_evex` - for EVERY regenerated
-(row, EVEX form) pair of the classes VexRvm / VexRvm_Lx whose third operand has a memory alternative, ALL register numbers, ALL base registers
-0..15 and ALL displacements, the bytes the class emits for `reg, vvvv, [base64 + disp]` satisfy the monitor (ModRM / SIB / disp8*N / disp32 included).
-The table layer additionally decides, per entry, that the database's tuple type gives the same disp8*N as the encoder's CDSHL / CDTT fields.
+C01 property theorems, front-end layer, memory operands, table layer: `front_cls_correct_{rvm,rm,rvmi,rmi}_mem` - for EVERY regenerated
+(row, form) pair (EVEX forms incl. EVEX-only instructions, VEX forms emitted as VEX3 or VEX2) of the classes VexRvm / VexRm / VexRvmi / VexRmi (+ _Lx)
+whose r/m operand has a memory alternative, ALL register numbers, ALL base registers 0..15 and ALL displacements, the bytes the class emits for
+`reg, [vvvv,] [base64 + disp] [, imm8]` satisfy the monitor (ModRM / SIB / disp8*N / disp32 included).
+The table layer additionally decides, per entry, that the database's tuple type gives the same disp8*N as the encoder's CDSHL / CDTT fields, and
+for the _Lx classes of shape [reg, MEM] that the L bits derived from the MEMORY operand's size agree with the form.
 -/
 import AsmjitVerif.Props.C01Rows
-import AsmjitVerif.Props.C01FrontMem
+import AsmjitVerif.Props.C01FrontMemX
 set_option linter.constructorNameAsVariable false
 set_option maxRecDepth 100000
 namespace AsmjitVerif.Props.C01
@@ -15,7 +17,7 @@ open Spec.X86 Model.X86 AsmjitVerif.Lemmas.X86Parse AsmjitVerif.Gen.X86ClassRows
 def hasMemAlt (f : FormOp) (sz : Nat) : Bool :=
   f.alts.any fun a => match a with | .mem (some s) .none => s == sz | _ => false
 
-theorem hasMemAlt_matches (osz : Nat) (f : FormOp) (sz : Nat) (m : MemOp) (h : hasMemAlt f sz = true) (hsz : m.size = sz) (hik : m.indexKind = .none) :
+theorem hasMemAlt_matches (osz : Nat) (f : FormOp) (sz : Nat) (m : MemOp) (h : hasMemAlt f sz = true) (hsz : m.size = sz) (hvs : vsibOf m = .none) :
     formOpMatches osz f (.mem m) = true := by
   unfold hasMemAlt at h
   unfold formOpMatches
@@ -28,76 +30,423 @@ theorem hasMemAlt_matches (osz : Nat) (f : FormOp) (sz : Nat) (m : MemOp) (h : h
     | none => simp at hm
     | some s' =>
       cases vs <;> simp at hm
-      simp [altMatches, vsibOf, hik, hsz, hm]
+      simp [altMatches, hvs, hsz, hm]
   | _ => simp at hm
 
-def vexRuleMOk (r : Rule) : Bool :=
+def vexRuleMOk (r : Rule) (nimm : Nat) : Bool :=
   r.modes &&& 2 != 0 && ((r.space == 1 || r.space == 2) && (r.pp &&& 8 == 0 && (!r.ri && ((r.modKind == 1 || r.modKind == 3) && (r.modr == 8 &&
-  (r.modrm == 8 && (r.immBytes == 0 && (r.relBytes == 0 && (!r.moff && (!r.a67 && (!r.immRev && r.osz == 0)))))))))))
+  (r.modrm == 8 && (r.immBytes == nimm && (r.relBytes == 0 && (!r.moff && (!r.a67 && (!r.immRev && r.osz == 0)))))))))))
 
-theorem vexRuleMOk_spec (r : Rule) (h : vexRuleMOk r = true) : VexRuleM r 0 ∧ (r.modes &&& 2 != 0) = true := by
+theorem vexRuleMOk_spec (r : Rule) (n : Nat) (h : vexRuleMOk r n = true) : VexRuleM r n ∧ (r.modes &&& 2 != 0) = true ∧ (r.space = 1 ∨ r.space = 2) := by
   simp only [vexRuleMOk, Bool.and_eq_true, Bool.or_eq_true, beq_iff_eq, bne_iff_ne, ne_eq, Bool.not_eq_true'] at h
   obtain ⟨hmodes, hsp, hpp8, hri, hmk, hmr, hmrm, himm, hrel, hmoff, ha67, hrev, hosz⟩ := h
-  exact ⟨⟨by rcases hsp with h | h <;> simp [h], hpp8, hri, hmk, hmr, hmrm, himm, hrel, hmoff, ha67, hrev, hosz⟩, by simpa using hmodes⟩
+  exact ⟨⟨by rcases hsp with h | h <;> simp [h], hpp8, hri, hmk, hmr, hmrm, himm, hrel, hmoff, ha67, hrev, hosz⟩, by simpa using hmodes, hsp⟩
 
-/-- EVEX entries with a memory alternative in the third operand: the rule's disp8*N = the encoder's compressed-displacement scale -/
-def entryOkRvmMemEvex (e : Entry) : Bool :=
+/-- everything the symbolic layer assumes about (rule, final opcode word, instruction flags), independent of the operand shape: the rule is a plain
+`/r` memory form; the row's opcode word spells the rule's fields; no TSIB / VSIB / kPreferEvex; a VEX form belongs to an instruction with the Vex
+flag; for an EVEX form the rule's disp8*N equals the encoder's compressed-displacement scale -/
+def memCoreOk (e : Entry) (op : BitVec 32) (nimm : Nat) : Bool :=
+  vexRuleMOk e.rule nimm && (rowAgreeOk e.rule op && (e.iflags &&& 0x1300000#32 == 0#32 &&
+  ((e.rule.space != 1 || e.iflags &&& 0x400000#32 != 0#32) &&
+   (e.rule.space != 2 || (cdShiftOf (evexCdOpcodeOf op) ≤ 6#32 &&
+     disp8Nf e.rule ((op >>> 29) &&& 3#32).toNat ((((op >>> 27) ||| (op >>> 28)) &&& 1#32) == 1#32) false == 2 ^ (cdShiftOf (evexCdOpcodeOf op)).toNat)))))
+
+structure MemCore (e : Entry) (op : BitVec 32) (nimm : Nat) : Prop where
+  R : VexRuleM e.rule nimm
+  hmode : (e.rule.modes &&& 2 != 0) = true
+  hsp : e.rule.space = 1 ∨ e.rule.space = 2
+  A : RowAgree e.rule op (e.rule.space == 2)
+  hxop : op &&& 0x800#32 = 0#32
+  hvex : e.rule.space = 1 → op &&& 0x40001000#32 = 0#32 ∧ op &&& 0x1F00#32 ≠ 0#32 ∧ e.iflags &&& 0x400000#32 ≠ 0#32
+  hevex : e.rule.space = 2 → cdShiftOf (evexCdOpcodeOf op) ≤ 6#32 ∧
+    disp8Nf e.rule ((op >>> 29) &&& 3#32).toNat ((((op >>> 27) ||| (op >>> 28)) &&& 1#32) == 1#32) false = 2 ^ (cdShiftOf (evexCdOpcodeOf op)).toNat
+
+theorem memCoreOk_spec (e : Entry) (op : BitVec 32) (nimm : Nat) (h : memCoreOk e op nimm = true) : MemCore e op nimm := by
+  simp only [memCoreOk, Bool.and_eq_true, Bool.or_eq_true, beq_iff_eq, bne_iff_ne, ne_eq, decide_eq_true_eq] at h
+  obtain ⟨hR, hA, -, hv, hev⟩ := h
+  obtain ⟨R, hmode, hsp⟩ := vexRuleMOk_spec _ _ hR
+  obtain ⟨A, hxop, hvx⟩ := rowAgreeOk_spec _ _ hA
+  refine ⟨R, hmode, hsp, A, hxop, ?_, ?_⟩
+  · intro h1
+    obtain ⟨a, b⟩ := hvx h1
+    rcases hv with hv | hv
+    · exact absurd h1 hv
+    · exact ⟨a, b, hv⟩
+  · intro h2
+    rcases hev with hev | hev
+    · exact absurd h2 hev
+    · exact hev
+
+/-- the final opcode word of the _Lx classes of shape [reg, MEM(, imm)]: L from the register's size or-ed with the MEMORY operand's size -/
+def finalOpM (e : Entry) (lxEnc : Nat) (size : Nat) : BitVec 32 :=
+  if e.enc == lxEnc then e.mainOp ||| opcodeLBySize ((Op.reg (rtypeOf (e.kinds.getD 0 .none)) 0).rmSize ||| size) else e.mainOp
+
+def anyMemAlt (f : FormOp) : Bool := f.alts.any fun a => match a with | .mem (some _) .none => true | _ => false
+
+theorem hasMemAlt_any (f : FormOp) (size : Nat) (h : hasMemAlt f size = true) : anyMemAlt f = true := by
+  unfold hasMemAlt at h
+  unfold anyMemAlt
+  rw [List.any_eq_true] at h ⊢
+  obtain ⟨a, ha, hm⟩ := h
+  refine ⟨a, ha, ?_⟩
+  cases a with
+  | mem s vs => cases s <;> cases vs <;> simp_all
+  | _ => simp at hm
+
+/-- per memory alternative of a form operand -/
+def allMemAlts (f : FormOp) (ok : Nat → Bool) : Bool := f.alts.all fun a => match a with | .mem (some s) .none => ok s | _ => true
+
+theorem allMemAlts_spec (f : FormOp) (ok : Nat → Bool) (size : Nat) (h : allMemAlts f ok = true) (hm : hasMemAlt f size = true) : ok size = true := by
+  unfold hasMemAlt at hm
+  unfold allMemAlts at h
+  rw [List.any_eq_true] at hm
+  rw [List.all_eq_true] at h
+  obtain ⟨a, ha, hm⟩ := hm
+  have := h a ha
+  cases a with
+  | mem s vs =>
+    cases s with
+    | none => simp at hm
+    | some s' =>
+      cases vs <;> simp at hm
+      simpa [hm] using this
+  | _ => simp at hm
+
+/-! ### table layer -/
+
+def entryOkRvmMem (e : Entry) : Bool :=
   match e.rule.ops, e.kinds with
   | [f0, f1, f2], [k0, k1, _] =>
-    let op := finalOp e 0x75
-    e.rule.space != 2 || !(f2.alts.any fun a => match a with | .mem (some _) .none => true | _ => false) || e.iflags &&& 0x400000#32 == 0#32 ||
-    ((e.enc == 0x72 || e.enc == 0x75) && (vexRuleMOk e.rule && (rowAgreeOk e.rule op && (e.iflags &&& 0x1300000#32 == 0#32 &&
+    !anyMemAlt f2 ||
+    ((e.enc == 0x72 || e.enc == 0x75) && (memCoreOk e (finalOp e 0x75) 0 &&
     (f0.role == .reg && (f1.role == .vvvv && (f2.role == .rm && (plainKind k0 && (plainKind k1 && (noFix f0 && (noFix f1 &&
-    (formOpMatches e.rule.oszEff f0 (.reg k0 0) && (formOpMatches e.rule.oszEff f1 (.reg k1 0) &&
-    (cdShiftOf (evexCdOpcodeOf op) ≤ 6#32 &&
-     disp8Nf e.rule ((op >>> 29) &&& 3#32).toNat ((((op >>> 27) ||| (op >>> 28)) &&& 1#32) == 1#32) false == 2 ^ (cdShiftOf (evexCdOpcodeOf op)).toNat))))))))))))))
+    (formOpMatches e.rule.oszEff f0 (.reg k0 0) && formOpMatches e.rule.oszEff f1 (.reg k1 0)))))))))))
   | _, _ => false
 
-theorem rvm_mem_evex_entries_ok : rvmChunks.all (fun c => c.all entryOkRvmMemEvex) = true := by decide +kernel
+def entryOkRvmiMem (e : Entry) : Bool :=
+  match e.rule.ops, e.kinds with
+  | [f0, f1, f2, f3], [k0, k1, _] =>
+    !anyMemAlt f2 ||
+    ((e.enc == 0x7A || e.enc == 0x7C) && (memCoreOk e (finalOp e 0x7C) 1 &&
+    (f0.role == .reg && (f1.role == .vvvv && (f2.role == .rm && (f3.role == .imm && (immBitsOf f3 == 8 && (plainKind k0 && (plainKind k1 && (noFix f0 && (noFix f1 &&
+    (formOpMatches e.rule.oszEff f0 (.reg k0 0) && formOpMatches e.rule.oszEff f1 (.reg k1 0)))))))))))))
+  | _, _ => false
 
-/-- **front_cls_correct with a memory operand, classes VexRvm / VexRvm_Lx, EVEX forms of instructions that also have a VEX form.**
-`reg, vvvv, [base64 + disp]`: ALL register numbers 0..31, ALL base registers 0..15, ALL 64-bit displacement values (of which the encoder uses the low
-32 bits), whenever EVEX is needed. The ModRM / SIB / disp8*N / disp32 bytes decode back to exactly that operand. -/
-theorem front_cls_correct_rvm_mem_evex (e : Entry) (ch : List Entry) (hch : ch ∈ rvmChunks) (he : e ∈ ch) (hsp : e.rule.space = 2)
-    (hvexf : e.iflags &&& 0x400000#32 ≠ 0#32)
-    (c : Model.X86.Ctx) (ctx : Spec.X86.Ctx) (reg vvvvv rb : BitVec 32) (size : Nat) (d : BitVec 64)
-    (hcm : c.mode64 = true) (hpe : c.preferEvex = false) (hk : c.extraId = 0#32) (hvf : c.vexFlag = true) (hvs : c.vsib = false) (hts : c.tsib = false)
-    (hm64 : ctx.mode64 = true) (hr : reg < 32#32) (hv : vvvvv < 32#32) (hb : rb < 16#32)
+def entryOkRmMem (e : Entry) : Bool :=
+  match e.rule.ops, e.kinds with
+  | [f0, f2], [k0, _] =>
+    allMemAlts f2 (fun size =>
+      (e.enc == 0x68 || e.enc == 0x6B) && (memCoreOk e (finalOpM e 0x6B size) 0 &&
+      (f0.role == .reg && (f2.role == .rm && (plainKind k0 && (noFix f0 && formOpMatches e.rule.oszEff f0 (.reg k0 0)))))))
+  | _, _ => false
+
+def entryOkRmiMem (e : Entry) : Bool :=
+  match e.rule.ops, e.kinds with
+  | [f0, f2, f3], [k0, _] =>
+    allMemAlts f2 (fun size =>
+      (e.enc == 0x6F || e.enc == 0x71) && (memCoreOk e (finalOpM e 0x71 size) 1 &&
+      (f0.role == .reg && (f2.role == .rm && (f3.role == .imm && (immBitsOf f3 == 8 && (plainKind k0 && (noFix f0 && formOpMatches e.rule.oszEff f0 (.reg k0 0)))))))))
+  | _, _ => false
+
+theorem rvm_mem_entries_ok : rvmChunks.all (fun c => c.all entryOkRvmMem) = true := by decide +kernel
+theorem rvmi_mem_entries_ok : rvmiChunks.all (fun c => c.all entryOkRvmiMem) = true := by decide +kernel
+theorem rm_mem_entries_ok : rmChunks.all (fun c => c.all entryOkRmMem) = true := by decide +kernel
+theorem rmi_mem_entries_ok : rmiChunks.all (fun c => c.all entryOkRmiMem) = true := by decide +kernel
+
+theorem vexFlag_false_of (c : Model.X86.Ctx) (fl : BitVec 32) (hvf : c.vexFlag = (fl &&& 0x400000#32 != 0#32)) (h : fl &&& 0x400000#32 = 0#32) :
+    c.vexFlag = false := by rw [hvf, h]; rfl
+
+theorem vexFlag_true_of (c : Model.X86.Ctx) (fl : BitVec 32) (hvf : c.vexFlag = (fl &&& 0x400000#32 != 0#32)) (h : fl &&& 0x400000#32 ≠ 0#32) :
+    c.vexFlag = true := by rw [hvf]; simpa using h
+
+/-! ### the class theorems with a memory operand
+
+In all four: `c.vexFlag` is the row's Vex flag (as `emitInst` sets it); the EVEX branch is taken when the instruction has no VEX form at all
+(EVEX-only: 309 + 102 + 181 + 39 pairs) or when a register number / the opcode word needs EVEX; VEX forms take register numbers 0..15 and are emitted
+as VEX3 or VEX2. Generic in the address form (`AddrForm`); instances: `addrForm_base` = `seg:[base64 + disp]` with ALL base registers 0..15, ALL
+64-bit displacement values (the encoder uses the low 32 bits) and ANY segment override, `addrForm_index` = `seg:[base64 + index64 * scale + disp]`,
+`addrForm_rip` = `seg:[rip + disp32]`. -/
+
+/-- **front_cls_correct with a memory operand, classes VexRvm / VexRvm_Lx**: `reg, vvvv, MEM` -/
+theorem front_cls_correct_rvm_mem (e : Entry) (ch : List Entry) (hch : ch ∈ rvmChunks) (he : e ∈ ch)
+    (c : Model.X86.Ctx) (ctx : Spec.X86.Ctx) (reg vvvvv xb aaa : BitVec 32) (z : Bool) (size : Nat) (m : Mem) (mo : MemOp) (pfx : List (BitVec 8))
+    (mb : BitVec 32 → BitVec 32 → BitVec 8) (sib : BitVec 32 → BitVec 32 → Option (BitVec 8)) (ds : BitVec 32 → BitVec 32 → List (BitVec 8))
+    (AF : AddrForm c ctx m mo pfx xb aaa mb sib ds) (hsize : mo.size = size)
+    (D : DecorAllowed e.rule aaa.toNat z false false)
+    (hvf : c.vexFlag = (e.iflags &&& 0x400000#32 != 0#32)) (hm64 : ctx.mode64 = true)
     (hsz : ∀ f2, e.rule.ops[2]? = some f2 → hasMemAlt f2 size = true)
-    (hev : xR (finalOp e 0x75) 0#32 reg vvvvv rb 0#32 &&& 0x00D78150#32 ≠ 0#32) :
+    (hids : (e.rule.space = 2 ∧ reg < 32#32 ∧ vvvvv < 32#32 ∧
+              (e.iflags &&& 0x400000#32 = 0#32 ∨ (xR (finalOp e 0x75) 0#32 reg vvvvv xb aaa ||| zOpt z) &&& 0x00D78110#32 ≠ 0#32)) ∨
+            (e.rule.space = 1 ∧ reg < 16#32 ∧ vvvvv < 16#32 ∧ aaa = 0#32 ∧ z = false)) :
     ∃ bytes k0 k1 k2, e.kinds = [k0, k1, k2] ∧
-      emitVexEvexM c (finalOp e 0x75) 0#32 (packRegVvvvv reg.toNat vvvvv.toNat) (memBase size rb d) 0 0 = .ok bytes ∧
-      formOk ctx e.rule [.reg k0 reg.toNat, .reg k1 vvvvv.toNat, .mem (memOpBase size rb d)] {} bytes = true := by
-  have hok := mem_chunks_ok rvm_mem_evex_entries_ok e ch hch he
-  unfold entryOkRvmMemEvex at hok
+      emitVexEvexM c (finalOp e 0x75) (zOpt z) (packRegVvvvv reg.toNat vvvvv.toNat) m 0 0 = .ok bytes ∧
+      formOk ctx e.rule [.reg k0 reg.toNat, .reg k1 vvvvv.toNat, .mem mo] (decorOf aaa.toNat z false false 0) bytes = true := by
+  have hok := mem_chunks_ok rvm_mem_entries_ok e ch hch he
+  unfold entryOkRvmMem at hok
   split at hok
   · rename_i f0 f1 f2 k0 k1 k2 hops hkinds
     have hm2 : hasMemAlt f2 size = true := hsz f2 (by rw [hops]; rfl)
-    have hany : (f2.alts.any fun a => match a with | .mem (some _) .none => true | _ => false) = true := by
-      unfold hasMemAlt at hm2
-      rw [List.any_eq_true] at hm2 ⊢
-      obtain ⟨a, ha, hm⟩ := hm2
-      refine ⟨a, ha, ?_⟩
-      cases a with
-      | mem s vs => cases s <;> cases vs <;> simp_all
-      | _ => simp at hm
-    have hvexf' : (e.iflags &&& 0x400000#32 == 0#32) = false := by simpa using hvexf
-    simp only [hsp, bne_self_eq_false, hany, Bool.not_true, hvexf', Bool.false_or, Bool.and_eq_true, Bool.or_eq_true, beq_iff_eq, decide_eq_true_eq] at hok
-    obtain ⟨-, hR, hA, hfl, r0, r1, r2, p0, p1, n0, n1, m0, m1, hs6, hN⟩ := hok
-    obtain ⟨R, hmode⟩ := vexRuleMOk_spec _ hR
-    obtain ⟨A, hxop, -⟩ := rowAgreeOk_spec _ _ hA
-    rw [hsp] at A
-    have hal : alignOps e.rule.oszEff e.rule.ops [.reg k0 reg.toNat, .reg k1 vvvvv.toNat, .mem (memOpBase size rb d)] =
-        some [(f0, some (.reg k0 reg.toNat)), (f1, some (.reg k1 vvvvv.toNat)), (f2, some (.mem (memOpBase size rb d)))] := by
+    simp only [hasMemAlt_any f2 size hm2, Bool.not_true, Bool.false_or, Bool.and_eq_true, Bool.or_eq_true, beq_iff_eq] at hok
+    obtain ⟨-, hC, r0, r1, r2, p0, p1, n0, n1, m0, m1⟩ := hok
+    obtain ⟨R, hmode, -, A, hxop, hvex, hevex⟩ := memCoreOk_spec _ _ _ hC
+    have hal : alignOps e.rule.oszEff e.rule.ops [.reg k0 reg.toNat, .reg k1 vvvvv.toNat, .mem mo] =
+        some [(f0, some (.reg k0 reg.toNat)), (f1, some (.reg k1 vvvvv.toNat)), (f2, some (.mem mo))] := by
       rw [hops]
       exact alignOps3 _ _ _ _ _ _ _ (by rw [formOpMatches_reg_nofix _ _ _ _ n0]; exact m0) (by rw [formOpMatches_reg_nofix _ _ _ _ n1]; exact m1)
-        (hasMemAlt_matches _ _ _ _ hm2 rfl rfl)
-    have heq := evexCdOpcode_eq (finalOp e 0x75) reg vvvvv rb hr hv hb hxop
-    obtain ⟨bytes, hb', hf⟩ := vexM_rvm_formOk_evex c ctx e.rule (finalOp e 0x75) reg vvvvv rb size d k0 k1 f0 f1 f2 hcm hpe hk hvf hvs hts hm64 hmode
-      hr hv hb hxop hev (plainKind_spec _ p0) (plainKind_spec _ p1) R hsp A (by rw [heq]; exact hs6) (by rw [heq]; exact hN) r0 r1 r2 hal
-    refine ⟨bytes, k0, k1, k2, hkinds, ?_, hf⟩
-    rw [packRegVvvvv_eq reg vvvvv hr hv]
-    exact hb'
+        (hasMemAlt_matches _ _ _ _ hm2 hsize AF.hvsib)
+    rcases hids with ⟨hsp, hr, hv, hev⟩ | ⟨hsp, hr, hv, ha0, hz0⟩
+    · rw [hsp] at A
+      obtain ⟨hs6, hN⟩ := hevex hsp
+      have hev' : c.vexFlag = false ∨ (xR (finalOp e 0x75) 0#32 reg vvvvv xb aaa ||| zOpt z) &&& 0x00D78110#32 ≠ 0#32 := by
+        rcases hev with h | h
+        · exact Or.inl (vexFlag_false_of c _ hvf h)
+        · exact Or.inr h
+      obtain ⟨bytes, hb', hf⟩ := vexM_rvm_formOk_evex c ctx e.rule (finalOp e 0x75) reg vvvvv xb aaa z m mo pfx mb sib ds AF k0 k1 f0 f1 f2 hm64 hmode
+        hr hv hxop hev' (plainKind_spec _ p0) (plainKind_spec _ p1) R D hsp A hs6 hN r0 r1 r2 hal
+      refine ⟨bytes, k0, k1, k2, hkinds, ?_, hf⟩
+      rw [packRegVvvvv_eq reg vvvvv hr hv]
+      exact hb'
+    · obtain ⟨hll, hmm, hvb⟩ := hvex hsp
+      subst ha0; subst hz0
+      have A' : RowAgree e.rule (finalOp e 0x75) false := by rw [hsp] at A; exact A
+      obtain ⟨bytes, hb', hf⟩ := vexM_rvm_formOk_vex c ctx e.rule (finalOp e 0x75) reg vvvvv xb m mo pfx mb sib ds AF k0 k1 f0 f1 f2
+        (vexFlag_true_of c _ hvf hvb) hm64 hmode
+        hr hv hxop hll hmm (plainKind_spec _ p0) (plainKind_spec _ p1) R hsp A' r0 r1 r2 hal
+      refine ⟨bytes, k0, k1, k2, hkinds, ?_, hf⟩
+      rw [packRegVvvvv_eq reg vvvvv (by bv_decide) (by bv_decide)]
+      exact hb'
   · simp at hok
+
+/-- **front_cls_correct with a memory operand, classes VexRvmi / VexRvmi_Lx**: `reg, vvvv, MEM, imm8` for every immediate the form admits -/
+theorem front_cls_correct_rvmi_mem (e : Entry) (ch : List Entry) (hch : ch ∈ rvmiChunks) (he : e ∈ ch)
+    (c : Model.X86.Ctx) (ctx : Spec.X86.Ctx) (reg vvvvv xb aaa : BitVec 32) (z : Bool) (size : Nat) (m : Mem) (mo : MemOp) (pfx : List (BitVec 8)) (imm : BitVec 64)
+    (mb : BitVec 32 → BitVec 32 → BitVec 8) (sib : BitVec 32 → BitVec 32 → Option (BitVec 8)) (ds : BitVec 32 → BitVec 32 → List (BitVec 8))
+    (AF : AddrForm c ctx m mo pfx xb aaa mb sib ds) (hsize : mo.size = size)
+    (D : DecorAllowed e.rule aaa.toNat z false false)
+    (hvf : c.vexFlag = (e.iflags &&& 0x400000#32 != 0#32)) (hm64 : ctx.mode64 = true)
+    (hsz : ∀ f2, e.rule.ops[2]? = some f2 → hasMemAlt f2 size = true)
+    (himm : ∀ f3, e.rule.ops[3]? = some f3 → formOpMatches e.rule.oszEff f3 (.imm imm) = true)
+    (hids : (e.rule.space = 2 ∧ reg < 32#32 ∧ vvvvv < 32#32 ∧
+              (e.iflags &&& 0x400000#32 = 0#32 ∨ (xR (finalOp e 0x7C) 0#32 reg vvvvv xb aaa ||| zOpt z) &&& 0x00D78110#32 ≠ 0#32)) ∨
+            (e.rule.space = 1 ∧ reg < 16#32 ∧ vvvvv < 16#32 ∧ aaa = 0#32 ∧ z = false)) :
+    ∃ bytes k0 k1 k2, e.kinds = [k0, k1, k2] ∧
+      emitVexEvexM c (finalOp e 0x7C) (zOpt z) (packRegVvvvv reg.toNat vvvvv.toNat) m imm 1 = .ok bytes ∧
+      formOk ctx e.rule [.reg k0 reg.toNat, .reg k1 vvvvv.toNat, .mem mo, .imm imm] (decorOf aaa.toNat z false false 0) bytes = true := by
+  have hok := mem_chunks_ok rvmi_mem_entries_ok e ch hch he
+  unfold entryOkRvmiMem at hok
+  split at hok
+  · rename_i f0 f1 f2 f3 k0 k1 k2 hops hkinds
+    have hm2 : hasMemAlt f2 size = true := hsz f2 (by rw [hops]; rfl)
+    have m3 : formOpMatches e.rule.oszEff f3 (.imm imm) = true := himm f3 (by rw [hops]; rfl)
+    simp only [hasMemAlt_any f2 size hm2, Bool.not_true, Bool.false_or, Bool.and_eq_true, Bool.or_eq_true, beq_iff_eq] at hok
+    obtain ⟨-, hC, r0, r1, r2, r3, hib, p0, p1, n0, n1, m0, m1⟩ := hok
+    obtain ⟨R, hmode, -, A, hxop, hvex, hevex⟩ := memCoreOk_spec _ _ _ hC
+    have hal : alignOps e.rule.oszEff e.rule.ops [.reg k0 reg.toNat, .reg k1 vvvvv.toNat, .mem mo, .imm imm] =
+        some [(f0, some (.reg k0 reg.toNat)), (f1, some (.reg k1 vvvvv.toNat)), (f2, some (.mem mo)), (f3, some (.imm imm))] := by
+      rw [hops]
+      exact alignOps4 _ _ _ _ _ _ _ _ _ (by rw [formOpMatches_reg_nofix _ _ _ _ n0]; exact m0) (by rw [formOpMatches_reg_nofix _ _ _ _ n1]; exact m1)
+        (hasMemAlt_matches _ _ _ _ hm2 hsize AF.hvsib) m3
+    rcases hids with ⟨hsp, hr, hv, hev⟩ | ⟨hsp, hr, hv, ha0, hz0⟩
+    · rw [hsp] at A
+      obtain ⟨hs6, hN⟩ := hevex hsp
+      have hev' : c.vexFlag = false ∨ (xR (finalOp e 0x7C) 0#32 reg vvvvv xb aaa ||| zOpt z) &&& 0x00D78110#32 ≠ 0#32 := by
+        rcases hev with h | h
+        · exact Or.inl (vexFlag_false_of c _ hvf h)
+        · exact Or.inr h
+      obtain ⟨bytes, hb', hf⟩ := vexM_rvmi_formOk_evex c ctx e.rule (finalOp e 0x7C) reg vvvvv xb aaa z m mo pfx mb sib ds AF k0 k1 f0 f1 f2 hm64 hmode
+        hr hv hxop hev' (plainKind_spec _ p0) (plainKind_spec _ p1) R D f3 imm r3 hib hsp A hs6 hN r0 r1 r2 hal
+      refine ⟨bytes, k0, k1, k2, hkinds, ?_, hf⟩
+      rw [packRegVvvvv_eq reg vvvvv hr hv]
+      exact hb'
+    · obtain ⟨hll, hmm, hvb⟩ := hvex hsp
+      subst ha0; subst hz0
+      have A' : RowAgree e.rule (finalOp e 0x7C) false := by rw [hsp] at A; exact A
+      obtain ⟨bytes, hb', hf⟩ := vexM_rvmi_formOk_vex c ctx e.rule (finalOp e 0x7C) reg vvvvv xb m mo pfx mb sib ds AF k0 k1 f0 f1 f2
+        (vexFlag_true_of c _ hvf hvb) hm64 hmode
+        hr hv hxop hll hmm (plainKind_spec _ p0) (plainKind_spec _ p1) R f3 imm r3 hib hsp A' r0 r1 r2 hal
+      refine ⟨bytes, k0, k1, k2, hkinds, ?_, hf⟩
+      rw [packRegVvvvv_eq reg vvvvv (by bv_decide) (by bv_decide)]
+      exact hb'
+  · simp at hok
+
+/-- **front_cls_correct with a memory operand, classes VexRm / VexRm_Lx**: `reg, MEM`; for the _Lx class the L bits come from the
+register's size or-ed with the MEMORY operand's size (`finalOpM`) -/
+theorem front_cls_correct_rm_mem (e : Entry) (ch : List Entry) (hch : ch ∈ rmChunks) (he : e ∈ ch)
+    (c : Model.X86.Ctx) (ctx : Spec.X86.Ctx) (reg xb aaa : BitVec 32) (z : Bool) (size : Nat) (m : Mem) (mo : MemOp) (pfx : List (BitVec 8))
+    (mb : BitVec 32 → BitVec 32 → BitVec 8) (sib : BitVec 32 → BitVec 32 → Option (BitVec 8)) (ds : BitVec 32 → BitVec 32 → List (BitVec 8))
+    (AF : AddrForm c ctx m mo pfx xb aaa mb sib ds) (hsize : mo.size = size)
+    (D : DecorAllowed e.rule aaa.toNat z false false)
+    (hvf : c.vexFlag = (e.iflags &&& 0x400000#32 != 0#32)) (hm64 : ctx.mode64 = true)
+    (hsz : ∀ f2, e.rule.ops[1]? = some f2 → hasMemAlt f2 size = true)
+    (hids : (e.rule.space = 2 ∧ reg < 32#32 ∧
+              (e.iflags &&& 0x400000#32 = 0#32 ∨ (xR (finalOpM e 0x6B size) 0#32 reg 0#32 xb aaa ||| zOpt z) &&& 0x00D78110#32 ≠ 0#32)) ∨
+            (e.rule.space = 1 ∧ reg < 16#32 ∧ aaa = 0#32 ∧ z = false)) :
+    ∃ bytes k0 k2, e.kinds = [k0, k2] ∧
+      emitVexEvexM c (finalOpM e 0x6B size) (zOpt z) (r32 reg.toNat) m 0 0 = .ok bytes ∧
+      formOk ctx e.rule [.reg k0 reg.toNat, .mem mo] (decorOf aaa.toNat z false false 0) bytes = true := by
+  have hok := mem_chunks_ok rm_mem_entries_ok e ch hch he
+  unfold entryOkRmMem at hok
+  split at hok
+  · rename_i f0 f2 k0 k2 hops hkinds
+    have hm2 : hasMemAlt f2 size = true := hsz f2 (by rw [hops]; rfl)
+    have hok := allMemAlts_spec f2 _ size hok hm2
+    simp only [Bool.and_eq_true, Bool.or_eq_true, beq_iff_eq] at hok
+    obtain ⟨-, hC, r0, r2, p0, n0, m0⟩ := hok
+    obtain ⟨R, hmode, -, A, hxop, hvex, hevex⟩ := memCoreOk_spec _ _ _ hC
+    have hal : alignOps e.rule.oszEff e.rule.ops [.reg k0 reg.toNat, .mem mo] =
+        some [(f0, some (.reg k0 reg.toNat)), (f2, some (.mem mo))] := by
+      rw [hops]
+      exact alignOps2 _ _ _ _ _ (by rw [formOpMatches_reg_nofix _ _ _ _ n0]; exact m0) (hasMemAlt_matches _ _ _ _ hm2 hsize AF.hvsib)
+    have e0 : reg + ((0#32 : BitVec 32) <<< 7) = reg := by bv_decide
+    rcases hids with ⟨hsp, hr, hev⟩ | ⟨hsp, hr, ha0, hz0⟩
+    · rw [hsp] at A
+      obtain ⟨hs6, hN⟩ := hevex hsp
+      have hev' : c.vexFlag = false ∨ (xR (finalOpM e 0x6B size) 0#32 reg 0#32 xb aaa ||| zOpt z) &&& 0x00D78110#32 ≠ 0#32 := by
+        rcases hev with h | h
+        · exact Or.inl (vexFlag_false_of c _ hvf h)
+        · exact Or.inr h
+      obtain ⟨bytes, hb', hf⟩ := vexM_rm_formOk_evex c ctx e.rule (finalOpM e 0x6B size) reg xb aaa z m mo pfx mb sib ds AF k0 f0 f2 hm64 hmode
+        hr hxop hev' (plainKind_spec _ p0) R D hsp A hs6 hN r0 r2 hal
+      refine ⟨bytes, k0, k2, hkinds, ?_, hf⟩
+      rw [e0] at hb'
+      simpa [r32, zOpt] using hb'
+    · obtain ⟨hll, hmm, hvb⟩ := hvex hsp
+      subst ha0; subst hz0
+      have A' : RowAgree e.rule (finalOpM e 0x6B size) false := by rw [hsp] at A; exact A
+      obtain ⟨bytes, hb', hf⟩ := vexM_rm_formOk_vex c ctx e.rule (finalOpM e 0x6B size) reg xb m mo pfx mb sib ds AF k0 f0 f2
+        (vexFlag_true_of c _ hvf hvb) hm64 hmode
+        hr hxop hll hmm (plainKind_spec _ p0) R hsp A' r0 r2 hal
+      refine ⟨bytes, k0, k2, hkinds, ?_, hf⟩
+      rw [e0] at hb'
+      simpa [r32, zOpt] using hb'
+  · simp at hok
+
+/-- **front_cls_correct with a memory operand, classes VexRmi / VexRmi_Lx**: `reg, MEM, imm8` -/
+theorem front_cls_correct_rmi_mem (e : Entry) (ch : List Entry) (hch : ch ∈ rmiChunks) (he : e ∈ ch)
+    (c : Model.X86.Ctx) (ctx : Spec.X86.Ctx) (reg xb aaa : BitVec 32) (z : Bool) (size : Nat) (m : Mem) (mo : MemOp) (pfx : List (BitVec 8)) (imm : BitVec 64)
+    (mb : BitVec 32 → BitVec 32 → BitVec 8) (sib : BitVec 32 → BitVec 32 → Option (BitVec 8)) (ds : BitVec 32 → BitVec 32 → List (BitVec 8))
+    (AF : AddrForm c ctx m mo pfx xb aaa mb sib ds) (hsize : mo.size = size)
+    (D : DecorAllowed e.rule aaa.toNat z false false)
+    (hvf : c.vexFlag = (e.iflags &&& 0x400000#32 != 0#32)) (hm64 : ctx.mode64 = true)
+    (hsz : ∀ f2, e.rule.ops[1]? = some f2 → hasMemAlt f2 size = true)
+    (himm : ∀ f3, e.rule.ops[2]? = some f3 → formOpMatches e.rule.oszEff f3 (.imm imm) = true)
+    (hids : (e.rule.space = 2 ∧ reg < 32#32 ∧
+              (e.iflags &&& 0x400000#32 = 0#32 ∨ (xR (finalOpM e 0x71 size) 0#32 reg 0#32 xb aaa ||| zOpt z) &&& 0x00D78110#32 ≠ 0#32)) ∨
+            (e.rule.space = 1 ∧ reg < 16#32 ∧ aaa = 0#32 ∧ z = false)) :
+    ∃ bytes k0 k2, e.kinds = [k0, k2] ∧
+      emitVexEvexM c (finalOpM e 0x71 size) (zOpt z) (r32 reg.toNat) m imm 1 = .ok bytes ∧
+      formOk ctx e.rule [.reg k0 reg.toNat, .mem mo, .imm imm] (decorOf aaa.toNat z false false 0) bytes = true := by
+  have hok := mem_chunks_ok rmi_mem_entries_ok e ch hch he
+  unfold entryOkRmiMem at hok
+  split at hok
+  · rename_i f0 f2 f3 k0 k2 hops hkinds
+    have hm2 : hasMemAlt f2 size = true := hsz f2 (by rw [hops]; rfl)
+    have m3 : formOpMatches e.rule.oszEff f3 (.imm imm) = true := himm f3 (by rw [hops]; rfl)
+    have hok := allMemAlts_spec f2 _ size hok hm2
+    simp only [Bool.and_eq_true, Bool.or_eq_true, beq_iff_eq] at hok
+    obtain ⟨-, hC, r0, r2, r3, hib, p0, n0, m0⟩ := hok
+    obtain ⟨R, hmode, -, A, hxop, hvex, hevex⟩ := memCoreOk_spec _ _ _ hC
+    have hal : alignOps e.rule.oszEff e.rule.ops [.reg k0 reg.toNat, .mem mo, .imm imm] =
+        some [(f0, some (.reg k0 reg.toNat)), (f2, some (.mem mo)), (f3, some (.imm imm))] := by
+      rw [hops]
+      exact alignOps3i _ _ _ _ _ _ _ (by rw [formOpMatches_reg_nofix _ _ _ _ n0]; exact m0) (hasMemAlt_matches _ _ _ _ hm2 hsize AF.hvsib) m3
+    have e0 : reg + ((0#32 : BitVec 32) <<< 7) = reg := by bv_decide
+    rcases hids with ⟨hsp, hr, hev⟩ | ⟨hsp, hr, ha0, hz0⟩
+    · rw [hsp] at A
+      obtain ⟨hs6, hN⟩ := hevex hsp
+      have hev' : c.vexFlag = false ∨ (xR (finalOpM e 0x71 size) 0#32 reg 0#32 xb aaa ||| zOpt z) &&& 0x00D78110#32 ≠ 0#32 := by
+        rcases hev with h | h
+        · exact Or.inl (vexFlag_false_of c _ hvf h)
+        · exact Or.inr h
+      obtain ⟨bytes, hb', hf⟩ := vexM_rmi_formOk_evex c ctx e.rule (finalOpM e 0x71 size) reg xb aaa z m mo pfx mb sib ds AF k0 f0 f2 hm64 hmode
+        hr hxop hev' (plainKind_spec _ p0) R D f3 imm r3 hib hsp A hs6 hN r0 r2 hal
+      refine ⟨bytes, k0, k2, hkinds, ?_, hf⟩
+      rw [e0] at hb'
+      simpa [r32, zOpt] using hb'
+    · obtain ⟨hll, hmm, hvb⟩ := hvex hsp
+      subst ha0; subst hz0
+      have A' : RowAgree e.rule (finalOpM e 0x71 size) false := by rw [hsp] at A; exact A
+      obtain ⟨bytes, hb', hf⟩ := vexM_rmi_formOk_vex c ctx e.rule (finalOpM e 0x71 size) reg xb m mo pfx mb sib ds AF k0 f0 f2
+        (vexFlag_true_of c _ hvf hvb) hm64 hmode
+        hr hxop hll hmm (plainKind_spec _ p0) R f3 imm r3 hib hsp A' r0 r2 hal
+      refine ⟨bytes, k0, k2, hkinds, ?_, hf⟩
+      rw [e0] at hb'
+      simpa [r32, zOpt] using hb'
+  · simp at hok
+
+/-! ### the class switch reaches `EmitVexEvexM` with exactly these arguments -/
+
+theorem dispatch_rvm_mem (c : Model.X86.Ctx) (row : Row) (options : BitVec 32) (t0 t1 i0 i1 : Nat) (m : Mem) (henc : row.encoding = 0x72 ∨ row.encoding = 0x75) :
+    dispatch c row options (.reg t0 i0) (.reg t1 i1) (.mem m) .none =
+      emitVexEvexM c (if row.encoding = 0x75 then row.mainOp ||| opcodeLBySize ((Op.reg t0 i0).rmSize ||| (Op.reg t1 i1).rmSize) else row.mainOp)
+        options (packRegVvvvv i0 i1) m 0 0 := by
+  rcases henc with h | h <;> simp [dispatch, h, sig3, Op.kind, Op.id]
+
+theorem dispatch_rm_mem (c : Model.X86.Ctx) (row : Row) (options : BitVec 32) (t0 i0 : Nat) (m : Mem) (henc : row.encoding = 0x68 ∨ row.encoding = 0x6B) :
+    dispatch c row options (.reg t0 i0) (.mem m) .none .none =
+      emitVexEvexM c (if row.encoding = 0x6B then row.mainOp ||| opcodeLBySize ((Op.reg t0 i0).rmSize ||| m.size) else row.mainOp)
+        options (r32 i0) m 0 0 := by
+  rcases henc with h | h <;> simp [dispatch, h, sig3, Op.kind, Op.id, Op.rmSize]
+
+theorem dispatch_rvmi_mem (c : Model.X86.Ctx) (row : Row) (options : BitVec 32) (t0 t1 i0 i1 : Nat) (m : Mem) (imm : BitVec 64)
+    (henc : row.encoding = 0x7A ∨ row.encoding = 0x7C) :
+    dispatch c row options (.reg t0 i0) (.reg t1 i1) (.mem m) (.imm imm) =
+      emitVexEvexM c (if row.encoding = 0x7C then row.mainOp ||| opcodeLBySize ((Op.reg t0 i0).rmSize ||| (Op.reg t1 i1).rmSize) else row.mainOp)
+        options (packRegVvvvv i0 i1) m imm 1 := by
+  rcases henc with h | h <;> simp [dispatch, h, sig4, Op.kind, Op.id, Op.immVal]
+
+theorem dispatch_rmi_mem (c : Model.X86.Ctx) (row : Row) (options : BitVec 32) (t0 i0 : Nat) (m : Mem) (imm : BitVec 64)
+    (henc : row.encoding = 0x6F ∨ row.encoding = 0x71) :
+    dispatch c row options (.reg t0 i0) (.mem m) (.imm imm) .none =
+      emitVexEvexM c (if row.encoding = 0x71 then row.mainOp ||| opcodeLBySize ((Op.reg t0 i0).rmSize ||| m.size) else row.mainOp)
+        options (r32 i0) m imm 1 := by
+  rcases henc with h | h <;> simp [dispatch, h, sig3, Op.kind, Op.id, Op.rmSize, Op.immVal]
+
+/-! ### the three address forms, spelled out for the class VexRvm (the other shapes instantiate the same way) -/
+
+/-- `front_cls_correct_rvm_mem` instantiated: `reg, vvvv, seg:[base + disp]`, ANY segment override, 64-bit or (`a32`) 32-bit address registers, ALL bases 0..15, ALL displacements -/
+theorem front_cls_correct_rvm_mem_base (e : Entry) (ch : List Entry) (hch : ch ∈ rvmChunks) (he : e ∈ ch)
+    (c : Model.X86.Ctx) (ctx : Spec.X86.Ctx) (reg vvvvv aaa : BitVec 32) (z : Bool) (rb : BitVec 32) (size : Nat) (d : BitVec 64) (seg : Nat) (a32 : Bool)
+    (hcm : c.mode64 = true) (hpe : c.preferEvex = false) (hk : c.extraId = aaa) (ha : aaa < 8#32) (hvs : c.vsib = false) (hts : c.tsib = false)
+    (hvf : c.vexFlag = (e.iflags &&& 0x400000#32 != 0#32)) (hm64 : ctx.mode64 = true)
+    (D : DecorAllowed e.rule aaa.toNat z false false) (hb : rb < 16#32)
+    (hsz : ∀ f2, e.rule.ops[2]? = some f2 → hasMemAlt f2 size = true)
+    (hids : (e.rule.space = 2 ∧ reg < 32#32 ∧ vvvvv < 32#32 ∧
+              (e.iflags &&& 0x400000#32 = 0#32 ∨ (xR (finalOp e 0x75) 0#32 reg vvvvv rb aaa ||| zOpt z) &&& 0x00D78110#32 ≠ 0#32)) ∨
+            (e.rule.space = 1 ∧ reg < 16#32 ∧ vvvvv < 16#32 ∧ aaa = 0#32 ∧ z = false)) :
+    ∃ bytes k0 k1 k2, e.kinds = [k0, k1, k2] ∧
+      emitVexEvexM c (finalOp e 0x75) (zOpt z) (packRegVvvvv reg.toNat vvvvv.toNat) (memBase size rb d seg a32) 0 0 = .ok bytes ∧
+      formOk ctx e.rule [.reg k0 reg.toNat, .reg k1 vvvvv.toNat, .mem (memOpBase size rb d seg a32)] (decorOf aaa.toNat z false false 0) bytes = true :=
+  front_cls_correct_rvm_mem e ch hch he c ctx reg vvvvv rb aaa z size _ _ _ _ _ _ (addrForm_base c ctx rb aaa size d seg a32 hcm hpe hk ha hvs hts hm64 hb) rfl D hvf hm64 hsz hids
+
+/-- `front_cls_correct_rvm_mem` instantiated: `reg, vvvv, seg:[base + index * 2^sh + disp]`, ANY segment override, 64-bit or (`a32`) 32-bit address registers, ALL bases 0..15, ALL indexes 0..15 but rSP, ALL scales, ALL displacements -/
+theorem front_cls_correct_rvm_mem_index (e : Entry) (ch : List Entry) (hch : ch ∈ rvmChunks) (he : e ∈ ch)
+    (c : Model.X86.Ctx) (ctx : Spec.X86.Ctx) (reg vvvvv aaa : BitVec 32) (z : Bool) (rb rx : BitVec 32) (sh : Nat) (size : Nat) (d : BitVec 64) (seg : Nat) (a32 : Bool)
+    (hcm : c.mode64 = true) (hpe : c.preferEvex = false) (hk : c.extraId = aaa) (ha : aaa < 8#32) (hvs : c.vsib = false) (hts : c.tsib = false)
+    (hvf : c.vexFlag = (e.iflags &&& 0x400000#32 != 0#32)) (hm64 : ctx.mode64 = true)
+    (D : DecorAllowed e.rule aaa.toNat z false false) (hb : rb < 16#32) (hx : rx < 16#32) (hx4 : rx ≠ 4#32) (hsh : sh < 4)
+    (hsz : ∀ f2, e.rule.ops[2]? = some f2 → hasMemAlt f2 size = true)
+    (hids : (e.rule.space = 2 ∧ reg < 32#32 ∧ vvvvv < 32#32 ∧
+              (e.iflags &&& 0x400000#32 = 0#32 ∨ (xR (finalOp e 0x75) 0#32 reg vvvvv (xbOf rb rx) aaa ||| zOpt z) &&& 0x00D78110#32 ≠ 0#32)) ∨
+            (e.rule.space = 1 ∧ reg < 16#32 ∧ vvvvv < 16#32 ∧ aaa = 0#32 ∧ z = false)) :
+    ∃ bytes k0 k1 k2, e.kinds = [k0, k1, k2] ∧
+      emitVexEvexM c (finalOp e 0x75) (zOpt z) (packRegVvvvv reg.toNat vvvvv.toNat) (memBaseIndex size rb rx sh d seg a32) 0 0 = .ok bytes ∧
+      formOk ctx e.rule [.reg k0 reg.toNat, .reg k1 vvvvv.toNat, .mem (memOpBaseIndex size rb rx sh d seg a32)] (decorOf aaa.toNat z false false 0) bytes = true :=
+  front_cls_correct_rvm_mem e ch hch he c ctx reg vvvvv (xbOf rb rx) aaa z size _ _ _ _ _ _ (addrForm_index c ctx rb rx aaa size sh d seg a32 hcm hpe hk ha hvs hm64 hb hx hx4 hsh) rfl D hvf hm64 hsz hids
+
+/-- `front_cls_correct_rvm_mem` instantiated: `reg, vvvv, seg:[rip + disp32]`, ANY segment override, ALL displacements -/
+theorem front_cls_correct_rvm_mem_rip (e : Entry) (ch : List Entry) (hch : ch ∈ rvmChunks) (he : e ∈ ch)
+    (c : Model.X86.Ctx) (ctx : Spec.X86.Ctx) (reg vvvvv aaa : BitVec 32) (z : Bool)  (size : Nat) (d : BitVec 64) (seg : Nat)
+    (hcm : c.mode64 = true) (hpe : c.preferEvex = false) (hk : c.extraId = aaa) (ha : aaa < 8#32) (hvs : c.vsib = false) (hts : c.tsib = false)
+    (hvf : c.vexFlag = (e.iflags &&& 0x400000#32 != 0#32)) (hm64 : ctx.mode64 = true)
+    (D : DecorAllowed e.rule aaa.toNat z false false) 
+    (hsz : ∀ f2, e.rule.ops[2]? = some f2 → hasMemAlt f2 size = true)
+    (hids : (e.rule.space = 2 ∧ reg < 32#32 ∧ vvvvv < 32#32 ∧
+              (e.iflags &&& 0x400000#32 = 0#32 ∨ (xR (finalOp e 0x75) 0#32 reg vvvvv 0#32 aaa ||| zOpt z) &&& 0x00D78110#32 ≠ 0#32)) ∨
+            (e.rule.space = 1 ∧ reg < 16#32 ∧ vvvvv < 16#32 ∧ aaa = 0#32 ∧ z = false)) :
+    ∃ bytes k0 k1 k2, e.kinds = [k0, k1, k2] ∧
+      emitVexEvexM c (finalOp e 0x75) (zOpt z) (packRegVvvvv reg.toNat vvvvv.toNat) (memRip size d seg) 0 0 = .ok bytes ∧
+      formOk ctx e.rule [.reg k0 reg.toNat, .reg k1 vvvvv.toNat, .mem (memOpRip size d seg)] (decorOf aaa.toNat z false false 0) bytes = true :=
+  front_cls_correct_rvm_mem e ch hch he c ctx reg vvvvv 0#32 aaa z size _ _ _ _ _ _ (addrForm_rip c ctx aaa size d seg hcm hpe hk ha hvs hm64) rfl D hvf hm64 hsz hids
 
 end AsmjitVerif.Props.C01
